@@ -41,3 +41,21 @@ def slow_eom_channel(doc: dict, params: dict) -> bool:
 
 
 MATCHERS = {"slow_eom_channel": slow_eom_channel}
+
+
+def variable_after_measure(doc: dict, params: dict) -> bool:
+    """The violating call carries a Variable and follows a successful measure."""
+    step = doc["expected"].get("step", len(doc["trace"]) - 1)
+    tr = doc["trace"]
+    if step >= len(tr):
+        return False
+    measured = any(r["op"]["op"] == "measure" and r.get("outcome") == "ok" for r in tr[:step])
+    if not measured:
+        return False
+    for r in tr[: step + 1]:
+        if r["op"]["op"] in ("add_var", "delay_var") and not r["op"].get("foreign"):
+            return True
+    return False
+
+
+MATCHERS["variable_after_measure"] = variable_after_measure
